@@ -81,10 +81,17 @@ func runC09(c *eng.Ctx) {
 			l := look[0].Instr
 			okh, why := ls.SameHold(l, gen.Instr, kvsMu, true)
 			c.Check(okh, "recheck-in-hold:"+mem, l, f, "the re-check of "+mem+" and the generation are in the same write hold", why)
-			miss := facts.Find(facts.At(gen.Instr), "false", func(_ string, v ssa.Value) bool { return extractIs(v, l.(ssa.Value), 1) }, nil)
-			c.Check(len(miss) > 0 && eng.DominatedBy(f, gen.Instr, look, nil), "generate-only-on-miss:"+mem, gen.Instr, f,
-				"an ID is generated only on the miss edge of the "+mem+" re-check (a hit returns the existing ID)",
-				"facts at the generator: "+strings.Join(facts.Render(facts.At(gen.Instr)), " ; "))
+			hit, _ := eng.BoolCheckEdges(f, l.(ssa.Value))
+			hitReaches := false
+			for _, e := range hit {
+				first := e.B.Succs[e.Succ].Instrs[0]
+				if _, ok := eng.PathExists(eng.PathQuery{Fn: f, After: first, Target: func(in ssa.Instruction) bool { return in == gen.Instr }}); ok || first == gen.Instr {
+					hitReaches = true
+				}
+			}
+			c.Check(len(hit) > 0 && !hitReaches && eng.DominatedBy(f, gen.Instr, look, nil), "generate-only-on-miss:"+mem, gen.Instr, f,
+				"an ID is generated only after the "+mem+" re-check missed (no path from its hit outcome reaches the generator; a hit returns the existing ID)",
+				fmt.Sprintf("hit edges %d, generator reachable from a hit: %v", len(hit), hitReaches))
 		}
 		// a flush that completed between lookup and lock moved entries to the persisted store
 		var cmp *ssa.If
@@ -247,10 +254,23 @@ func runC09(c *eng.Ctx) {
 				}
 			}
 			// the flush version handed to the resolver is read before the lookup
-			fv := c.One(f, eng.CallTo(mssT+".getFlushVersion"), "getFlushVersion()")
 			gs := c.One(f, eng.CallTo(mssT+".GetSchema"), "GetSchema")
-			c.Check(eng.DominatedBy(f, gs.Instr, []eng.Site{fv}, nil) && eng.CallArgs(res.Instr.(*ssa.Call))[2] == fv.Instr.(ssa.Value), "flush-version-read-first", fv.Instr, f,
-				"the flush version is captured before the unlocked lookup and handed to the resolver", "")
+			ra := eng.CallArgs(res.Instr.(*ssa.Call))[2]
+			var fv eng.Site
+			nfv := 0
+			for _, s := range c.Some(f, eng.LoadField(mssT+".flushVersion"), "read of the store's flush version") {
+				if eng.DependsOn(ra, func(x ssa.Value) bool { return x == s.Instr.(ssa.Value) }) {
+					fv = s
+					nfv++
+				}
+			}
+			if nfv != 1 {
+				c.Undecided("expected one read of flushVersion that is handed to the resolver, found %d", nfv)
+			}
+			handed := true
+			c.Check(eng.DominatedBy(f, gs.Instr, []eng.Site{fv}, nil) && handed, "flush-version-read-first", fv.Instr, f,
+				"the flush version is captured before the unlocked lookup and handed to the resolver", fmt.Sprintf("handed to the resolver: %v (argument %s)", handed, p.Desc(ra)))
+			c.Check(ls.At(fv.Instr).HasField(mssMu, false), "flush-version-read-locked", fv.Instr, f, "the flush version is read under the store's lock", "held: "+ls.At(fv.Instr).String())
 		})
 	}
 	c.Rule("GOC", mssT+".getOrCreateSchemaUnderLock", func() {
